@@ -1,13 +1,616 @@
-//! C11: generators and executor (see DESIGN.md section 4, C11).
+//! C11: stored keys come back intact and are found by algorithm, thumbprint and tags (DESIGN.md section 4, C11).
+//!
+//! Case kinds
+//!   c11      {"keys": [key…], "txn": bool, "ops": [op…]}    key API only (+ Item-kind rows in category `cryptokey`)
+//!   c11:raw  the same plus Kms rows written behind the key API (odd tags, foreign CBOR); the oracle only
+//!            judges what the property determines there
+//! key  = {"alg", "how": "seed"|"secret"|"public"|"bls_keygen", "mat": hex,            (recipe, read by the executor)
+//!         "thumbs": […], "jwk": hex|{"err"}, "sec": hex|{"err"}, "pub": hex|{"err"}}   (observables, read by the model)
+//! op   = insert_key {n, key, meta, ref, t, e} | update_key {n, meta, t, e} | remove_key {n} | fetch_key {n}
+//!      | fetch_all_keys {alg, thumb, f, lim} | item_fetch {n} | raw_insert {k, n, v, t} | dump
+//! Every call runs in its own session (a transaction that is committed when "txn" is set).
+use crate::canon::{filter_from_json, jvalue, kind_of, ref_holds, sorted_tags, tags_from_json, Rec, Tag};
+use crate::gen_store::{LIKE_PATTERNS, TAG_VALUES};
 use crate::rng::Rng;
+use crate::store_case::{cleanup, now_ms, provision};
+use aries_askar::entry::{EntryOperation, TagFilter};
+use aries_askar::kms::{KeyAlg, KeyEntry, KeyReference, LocalKey};
+use aries_askar::{ErrorKind, Store};
+use askar_storage::backend::{Backend, BackendSession, OrderBy};
+use askar_storage::future::block_on;
 use serde_json::{json, Value};
+use std::collections::{BTreeMap, BTreeSet};
+use std::str::FromStr;
 
-/// generated cases for this property (each a JSON object with "kind": "c11…")
-pub fn gen(_r: &mut Rng, _thorough: bool, _count: Option<usize>) -> Vec<Value> {
-    vec![]
+pub const ALGS: &[&str] = &[
+    "a128gcm", "a256gcm", "a128cbchs256", "a256cbchs512", "a128kw", "a256kw", "bls12381g1", "bls12381g2", "bls12381g1g2",
+    "c20p", "xc20p", "ed25519", "x25519", "k256", "p256", "p384",
+];
+const SYMMETRIC: &[&str] = &["a128gcm", "a256gcm", "a128cbchs256", "a256cbchs512", "a128kw", "a256kw", "c20p", "xc20p"];
+
+const KEY_NAMES: &[&str] = &["k1", "k2", "k3", "k4", "", "ключ\u{0}", "user:k", "~k"];
+/// user tag names: plain ones, names that look like the system tags, names that already carry the prefix, `~` names
+const UTAG_NAMES: &[&str] = &["a", "b", "n", "t", "alg", "thumb", "user:a", "user:", "~a", "~", "", "ü", "a\u{0}b", "$exist", "user:alg"];
+/// names used (as plaintext names `~x`) in ordered comparisons and LIKE; no ENCRYPTED tag is ever named `~x` for these
+const ORD_NAMES: &[&str] = &["n", "t", "b", "ü"];
+const METAS: &[Option<&str>] = &[None, Some(""), Some("meta"), Some("m\u{e9}t\u{e0}-\u{1F511}\u{0}x"), Some("{\"json\": true}")];
+
+fn err_name(k: ErrorKind) -> &'static str {
+    match k {
+        ErrorKind::Backend => "Backend",
+        ErrorKind::Busy => "Busy",
+        ErrorKind::Custom => "Custom",
+        ErrorKind::Duplicate => "Duplicate",
+        ErrorKind::Encryption => "Encryption",
+        ErrorKind::Input => "Input",
+        ErrorKind::NotFound => "NotFound",
+        ErrorKind::Unexpected => "Unexpected",
+        ErrorKind::Unsupported => "Unsupported",
+    }
 }
 
-/// run one case against the real code; returns {"out": …, "oracle": […], "feat": {…}}
-pub fn exec(_case: &Value, _tag: &str) -> Value {
-    json!({"out": {"err": "not implemented"}})
+thread_local! { static DIAG: std::cell::RefCell<Vec<String>> = std::cell::RefCell::new(vec![]); }
+
+fn jerr(e: &aries_askar::Error) -> Value {
+    DIAG.with(|d| d.borrow_mut().push(format!("{}", e).chars().take(160).collect()));
+    json!({"err": err_name(e.kind())})
+}
+
+fn hex_or_err<T: AsRef<[u8]>>(r: Result<T, aries_askar::Error>) -> Value {
+    match r { Ok(b) => json!(hex::encode(b.as_ref())), Err(e) => json!({"err": err_name(e.kind())}) }
+}
+
+// ---------------------------------------------------------------------------------------------------------------------
+// keys
+
+fn secret_len(alg: &str) -> usize {
+    match alg { "a128gcm" | "a128kw" => 16, "a256cbchs512" => 64, "p384" => 48, _ => 32 }
+}
+
+fn make_key(k: &Value) -> Result<LocalKey, aries_askar::Error> {
+    let alg = KeyAlg::from_str(k["alg"].as_str().unwrap_or("")).map_err(aries_askar::Error::from)?;
+    let mat = hex::decode(k["mat"].as_str().unwrap_or("")).unwrap_or_default();
+    match k["how"].as_str().unwrap_or("") {
+        "seed" => LocalKey::from_seed(alg, &mat, None),
+        "bls_keygen" => LocalKey::from_seed(alg, &mat, Some("bls_keygen")),
+        "secret" => LocalKey::from_secret_bytes(alg, &mat),
+        "public" => LocalKey::from_public_bytes(alg, &mat),
+        _ => Err(aries_askar::Error::from(ErrorKind::Input)),
+    }
+}
+
+/// what the model is told about a key (its `KeyOps` instance is a table of these)
+fn observables(key: &LocalKey) -> Value {
+    json!({
+        "thumbs": key.to_jwk_thumbprints().unwrap_or_default(),
+        "jwk": hex_or_err(key.to_jwk_secret()),
+        "sec": hex_or_err(key.to_secret_bytes()),
+        "pub": hex_or_err(key.to_public_bytes()),
+    })
+}
+
+fn gen_key(r: &mut Rng, alg: &str) -> Value {
+    let sym = SYMMETRIC.contains(&alg);
+    let bls = alg.starts_with("bls");
+    for _ in 0..8 {
+        let how = match r.below(8) { 0 | 1 | 2 => "secret", 3 if !sym => "public", 4 if bls => "bls_keygen", _ => "seed" };
+        let mut k = match how {
+            "secret" => json!({"alg": alg, "how": "secret", "mat": hex::encode(r.bytes(secret_len(alg)))}),
+            "public" => {
+                let full = json!({"alg": alg, "how": "seed", "mat": hex::encode(r.bytes(32))});
+                match make_key(&full).and_then(|f| f.to_public_bytes()) {
+                    Ok(p) => json!({"alg": alg, "how": "public", "mat": hex::encode(p.as_ref())}),
+                    Err(_) => continue,
+                }
+            }
+            h => json!({"alg": alg, "how": h, "mat": hex::encode(r.bytes(32))}),
+        };
+        if let Ok(key) = make_key(&k) {
+            let o = observables(&key);
+            for (f, v) in o.as_object().unwrap() { k[f] = v.clone(); }
+            return k;
+        }
+    }
+    panic!("cannot generate a key for {}", alg)
+}
+
+// ---------------------------------------------------------------------------------------------------------------------
+// generators
+
+fn utag(r: &mut Rng) -> Value {
+    let plain = r.chance(2, 5);
+    let mut name = *r.pick(UTAG_NAMES);
+    // keep ciphertext order out of the comparison: no encrypted tag named `~x` for a name x used in ordered filters
+    if !plain && name.starts_with('~') && ORD_NAMES.contains(&&name[1..]) { name = "~a"; }
+    json!([if plain { 1 } else { 0 }, name, *r.pick(TAG_VALUES)])
+}
+
+fn utags(r: &mut Rng) -> Value {
+    if r.chance(1, 8) { return Value::Null; }
+    let n = match r.below(6) { 0 => 0, 1 => 1, 2 => 2, 3 => 3, 4 => 5, _ => 7 };
+    let mut v: Vec<Value> = (0..n).map(|_| utag(r)).collect();
+    if n > 1 && r.chance(1, 4) { let d = v[0].clone(); v.push(d); }
+    Value::Array(v)
+}
+
+fn fname(r: &mut Rng, want_plain: Option<bool>) -> String {
+    let plain = want_plain.unwrap_or_else(|| r.chance(1, 2));
+    let n = *r.pick(UTAG_NAMES);
+    if plain { format!("~{}", n) } else { n.to_string() }
+}
+
+/// in-domain user-tag filter: ordered comparison / LIKE only on plaintext names, no nested empty lists
+fn filter(r: &mut Rng, depth: usize) -> Value {
+    if depth == 0 || r.chance(2, 5) {
+        match r.below(10) {
+            0 | 1 | 2 => json!({"eq": [fname(r, None), *r.pick(TAG_VALUES)]}),
+            3 => json!({"neq": [fname(r, None), *r.pick(TAG_VALUES)]}),
+            4 => { let op = *r.pick(&["gt", "gte", "lt", "lte"]); json!({op: [format!("~{}", r.pick(ORD_NAMES)), *r.pick(TAG_VALUES)]}) }
+            5 => json!({"like": [format!("~{}", r.pick(ORD_NAMES)), *r.pick(LIKE_PATTERNS)]}),
+            6 | 7 => {
+                let n = match r.below(5) { 0 => 0, 1 => 1, _ => 1 + r.below(4) };
+                let vs: Vec<&str> = (0..n).map(|_| *r.pick(TAG_VALUES)).collect();
+                json!({"in": [fname(r, None), vs]})
+            }
+            _ => {
+                let n = match r.below(4) { 0 | 1 => 1, 2 => 2, _ => 3 };
+                let ns: Vec<String> = (0..n).map(|_| fname(r, None)).collect();
+                json!({"exist": ns})
+            }
+        }
+    } else {
+        match r.below(3) {
+            0 => json!({"not": filter(r, depth - 1)}),
+            k => {
+                let n = 1 + r.below(3);
+                let qs: Vec<Value> = (0..n).map(|_| filter(r, depth - 1)).collect();
+                json!({ if k == 1 { "and" } else { "or" }: qs })
+            }
+        }
+    }
+}
+
+/// a filter aimed at one of the tags that were actually written (so that matches happen)
+fn aimed_filter(r: &mut Rng, written: &[Value]) -> Option<Value> {
+    if written.is_empty() { return None; }
+    let t = r.pick(written);
+    let plain = t[0].as_i64().unwrap_or(0) != 0;
+    let name = format!("{}{}", if plain { "~" } else { "" }, t[1].as_str().unwrap_or(""));
+    Some(match r.below(4) {
+        0 | 1 => json!({"eq": [name, t[2]]}),
+        2 => json!({"exist": [name]}),
+        _ => json!({"in": [name, [t[2], "zz"]]}),
+    })
+}
+
+fn gen_ref(r: &mut Rng) -> Value {
+    match r.below(12) { 0 => json!("mse"), 1 => json!({"any": "hsm-\u{1F512}"}), 2 => json!({"any": ""}), _ => Value::Null }
+}
+
+fn gen_meta(r: &mut Rng) -> Value {
+    match r.below(9) {
+        0 => { let n = *r.pick(&[23usize, 24, 255, 256, 300]); json!("m".repeat(n)) }
+        _ => match r.pick(METAS) { Some(s) => json!(s), None => Value::Null },
+    }
+}
+
+fn gen_expiry(r: &mut Rng, allow_past: bool) -> Value {
+    match r.below(20) { 0 | 1 => json!(86_400_000i64), 2 if allow_past => json!(-3_600_000i64), _ => Value::Null }
+}
+
+fn gen_case(r: &mut Rng, id: u64, thorough: bool, raw: bool) -> Value {
+    // key table: the algorithm of the case's turn is always present, so that all 16 are covered by any 16 consecutive cases
+    let nkeys = 2 + r.below(3);
+    let mut keys = vec![gen_key(r, ALGS[(id as usize) % ALGS.len()])];
+    for _ in 1..nkeys {
+        let alg = if r.chance(1, 3) { keys[0]["alg"].as_str().unwrap().to_string() } else { r.pick(ALGS).to_string() };
+        keys.push(gen_key(r, &alg));
+    }
+    let names = &KEY_NAMES[..if r.chance(1, 4) { KEY_NAMES.len() } else { 4 }];
+    let nops = if thorough { 12 + r.below(30) } else { 10 + r.below(16) };
+    let mut ops = vec![];
+    let mut written: Vec<Value> = vec![];
+    let mut thumbs: Vec<String> = vec![];
+    for k in &keys { for t in k["thumbs"].as_array().unwrap() { thumbs.push(t.as_str().unwrap().to_string()); } }
+    let note = |w: &mut Vec<Value>, t: &Value| { if let Some(a) = t.as_array() { w.extend(a.iter().cloned()); } };
+    for i in 0..nops {
+        let front = i < 3;
+        let pick = if front { 0 } else { r.below(20) };
+        let op = match pick {
+            0..=4 => {
+                let t = utags(r);
+                note(&mut written, &t);
+                json!({"op": "insert_key", "n": *r.pick(names), "key": r.below(keys.len()), "meta": gen_meta(r), "ref": gen_ref(r), "t": t, "e": gen_expiry(r, false)})
+            }
+            5..=7 => {
+                let t = utags(r);
+                note(&mut written, &t);
+                json!({"op": "update_key", "n": *r.pick(names), "meta": gen_meta(r), "t": t, "e": gen_expiry(r, true)})
+            }
+            8 => json!({"op": "remove_key", "n": *r.pick(names)}),
+            9..=11 => json!({"op": "fetch_key", "n": *r.pick(names)}),
+            12 if raw => {
+                // a Kms row written behind the key API
+                let data = match r.below(4) { 0 => Value::Null, 1 => json!(hex::encode(b"junk")), _ => keys[r.below(keys.len())]["jwk"].clone() };
+                let data = if data.is_string() { data } else { Value::Null };
+                let v = match r.below(6) {
+                    0 => json!(""), 1 => json!("ff"), 2 => json!("00"),
+                    _ => json!(hex::encode(cbor_params(gen_meta(r).as_str(), &gen_ref(r), data.as_str().map(|h| hex::decode(h).unwrap()).as_deref()))),
+                };
+                let mut t: Vec<Value> = utags(r).as_array().cloned().unwrap_or_default();
+                for _ in 0..r.below(4) {
+                    t.push(match r.below(6) {
+                        0 => json!([0, "alg", *r.pick(ALGS)]),
+                        1 => json!([1, "alg", *r.pick(ALGS)]),
+                        2 => json!([0, "thumb", r.pick(&thumbs)]),
+                        3 => json!([1, "thumb", "plain-thumb"]),
+                        4 => json!([0, "user:a", *r.pick(TAG_VALUES)]),
+                        _ => json!([r.below(2), "other", "x"]),
+                    });
+                }
+                json!({"op": "raw_insert", "k": 1, "n": *r.pick(names), "v": v, "t": t})
+            }
+            12 | 13 => json!({"op": "raw_insert", "k": 2, "n": *r.pick(names), "v": "6974656d", "t": [[0, "alg", *r.pick(ALGS)], [0, "user:a", "1"]]}),
+            14 => json!({"op": "item_fetch", "n": *r.pick(names)}),
+            15 => json!({"op": "dump"}),
+            _ => {
+                let alg = match r.below(5) { 0 | 1 => json!(keys[r.below(keys.len())]["alg"]), 2 => json!(*r.pick(ALGS)), 3 if r.chance(1, 4) => json!("aes128gcm"), _ => Value::Null };
+                let thumb = match r.below(6) { 0 | 1 => json!(r.pick(&thumbs)), 2 if r.chance(1, 3) => json!("nonexistent"), _ => Value::Null };
+                let f = match r.below(10) {
+                    0 | 1 | 2 => Value::Null,
+                    3 | 4 | 5 => aimed_filter(r, &written).unwrap_or(Value::Null),
+                    6 => match r.below(3) { 0 => json!({"and": []}), 1 => json!({"or": []}), _ => json!({"exist": []}) },
+                    _ => filter(r, 2),
+                };
+                let lim = match r.below(8) { 0 => json!(0), 1 => json!(1), 2 => json!(2), 3 if r.chance(1, 3) => json!(-1), _ => Value::Null };
+                json!({"op": "fetch_all_keys", "alg": alg, "thumb": thumb, "f": f, "lim": lim})
+            }
+        };
+        ops.push(op);
+    }
+    ops.push(json!({"op": "fetch_all_keys", "alg": null, "thumb": null, "f": null, "lim": null}));
+    ops.push(json!({"op": "dump"}));
+    json!({"kind": if raw { "c11:raw" } else { "c11" }, "id": id, "txn": r.chance(1, 3), "file": false, "keys": keys, "ops": ops})
+}
+
+/// the two defects of section 5 as directed cases (they also arise at random)
+fn directed(id: u64, r: &mut Rng) -> Vec<Value> {
+    let ed = gen_key(r, "ed25519");
+    let aes = gen_key(r, "a128gcm");
+    vec![
+        json!({"kind": "c11", "id": id, "txn": false, "file": false, "keys": [ed], "ops": [
+            {"op": "insert_key", "n": "k1", "key": 0, "meta": null, "ref": null, "t": [[1, "t", "v"], [0, "e", "w"]], "e": null},
+            {"op": "fetch_all_keys", "alg": null, "thumb": null, "f": {"eq": ["e", "w"]}, "lim": null},
+            {"op": "fetch_all_keys", "alg": null, "thumb": null, "f": {"eq": ["~t", "v"]}, "lim": null},
+            {"op": "fetch_all_keys", "alg": null, "thumb": null, "f": {"not": {"exist": ["~t"]}}, "lim": null},
+        ]}),
+        json!({"kind": "c11", "id": id + 1, "txn": false, "file": false, "keys": [aes], "ops": [
+            {"op": "insert_key", "n": "k1", "key": 0, "meta": "m", "ref": null, "t": null, "e": null},
+            {"op": "fetch_key", "n": "k1"},
+        ]}),
+    ]
+}
+
+pub fn gen(r: &mut Rng, thorough: bool, count: Option<usize>) -> Vec<Value> {
+    let n = count.unwrap_or(if thorough { 4000 } else { 160 });
+    let mut out = vec![];
+    let mut rr = r.fork();
+    out.extend(directed(0, &mut rr));
+    for i in 2..n.max(2) as u64 {
+        let mut rr = r.fork();
+        let raw = i % 5 == 4;
+        out.push(gen_case(&mut rr, i, thorough, raw));
+    }
+    out.truncate(n.max(1));
+    out
+}
+
+// ---------------------------------------------------------------------------------------------------------------------
+// independent encodings used by the oracle
+
+fn cbor_head(major: u8, n: usize, out: &mut Vec<u8>) {
+    let m = major << 5;
+    if n < 24 { out.push(m | n as u8); }
+    else if n < 0x100 { out.push(m | 24); out.push(n as u8); }
+    else if n < 0x10000 { out.push(m | 25); out.extend_from_slice(&(n as u16).to_be_bytes()); }
+    else if n < 0x1_0000_0000 { out.push(m | 26); out.extend_from_slice(&(n as u32).to_be_bytes()); }
+    else { out.push(m | 27); out.extend_from_slice(&(n as u64).to_be_bytes()); }
+}
+fn cbor_text(s: &str, out: &mut Vec<u8>) { cbor_head(3, s.len(), out); out.extend_from_slice(s.as_bytes()); }
+
+/// RFC 8949 encoding of `KeyParams` as docs/storage.md describes it: a map with the text keys `meta`, `ref`, `data`
+/// (absent when None); `ref` is the text `MobileSecureElement` or the map {"Any": text}; `data` is a byte string
+pub fn cbor_params(meta: Option<&str>, rf: &Value, data: Option<&[u8]>) -> Vec<u8> {
+    let mut out = vec![];
+    let n = meta.is_some() as usize + (!rf.is_null()) as usize + data.is_some() as usize;
+    cbor_head(5, n, &mut out);
+    if let Some(m) = meta { cbor_text("meta", &mut out); cbor_text(m, &mut out); }
+    if !rf.is_null() {
+        cbor_text("ref", &mut out);
+        if rf == "mse" { cbor_text("MobileSecureElement", &mut out); }
+        else { cbor_head(5, 1, &mut out); cbor_text("Any", &mut out); cbor_text(rf["any"].as_str().unwrap_or(""), &mut out); }
+    }
+    if let Some(d) = data { cbor_text("data", &mut out); cbor_head(2, d.len(), &mut out); out.extend_from_slice(d); }
+    out
+}
+
+fn key_ref(v: &Value) -> Option<KeyReference> {
+    if v.is_null() { None }
+    else if v == "mse" { Some(KeyReference::MobileSecureElement) }
+    else { Some(KeyReference::Any(v["any"].as_str().unwrap_or("").to_string())) }
+}
+
+fn filter_has_plain_name(f: &Value) -> bool {
+    match f {
+        Value::Object(o) => o.iter().any(|(k, x)| match k.as_str() {
+            "and" | "or" => x.as_array().map_or(false, |a| a.iter().any(filter_has_plain_name)),
+            "not" => filter_has_plain_name(x),
+            "exist" => x.as_array().map_or(false, |a| a.iter().any(|n| n.as_str().map_or(false, |s| s.starts_with('~')))),
+            _ => x[0].as_str().map_or(false, |s| s.starts_with('~')),
+        }),
+        _ => false,
+    }
+}
+
+// ---------------------------------------------------------------------------------------------------------------------
+// reference oracle: a map name -> what was stored, as the property text describes it
+
+#[derive(Clone)]
+struct RefKey { key: usize, meta: Option<String>, rf: Value, tags: Vec<Tag>, expiry: Option<i128>, seq: u64 }
+
+struct Oracle {
+    keys: BTreeMap<String, RefKey>,
+    raw_kms: BTreeSet<String>, // names of Kms rows written behind the API (the property says nothing about them)
+    now: i128,
+    seq: u64,
+}
+
+impl Oracle {
+    fn live(&self, k: &RefKey) -> bool { k.expiry.map_or(true, |e| e.div_euclid(1000) > self.now.div_euclid(1000)) }
+}
+
+fn entry_json(e: &KeyEntry) -> Value {
+    let tags: Vec<Value> = e.tags_as_slice().iter().map(|t| Tag::from_entry_tag(t).to_json()).collect();
+    let load = match e.load_local_key() {
+        Ok(k) => json!({"alg": k.algorithm().as_str(), "sec": hex_or_err(k.to_secret_bytes()), "pub": hex_or_err(k.to_public_bytes()),
+                        "thumbs": k.to_jwk_thumbprints().unwrap_or_default()}),
+        Err(e) => jerr(&e),
+    };
+    json!({"n": e.name(), "alg": e.algorithm(), "meta": e.metadata(), "local": e.is_local(), "t": tags, "load": load})
+}
+
+/// what the property says a stored key must look like when read back
+fn expected_entry(name: &str, k: &RefKey, key: &LocalKey) -> Value {
+    json!({"n": name, "alg": key.algorithm().as_str(), "meta": k.meta, "local": k.rf.is_null(),
+           "t": sorted_tags(&k.tags).iter().map(Tag::to_json).collect::<Vec<_>>(),
+           "load": {"alg": key.algorithm().as_str(), "sec": hex_or_err(key.to_secret_bytes()), "pub": hex_or_err(key.to_public_bytes()),
+                    "thumbs": key.to_jwk_thumbprints().unwrap_or_default()}})
+}
+
+/// compare an observed entry with the expected one; returns oracle failures
+fn judge_entry(op: &str, i: usize, exp: &Value, got: &Value, alg: &str, judge_load: bool, out: &mut Vec<Value>) {
+    for f in ["n", "alg", "meta", "local"] {
+        if exp[f] != got[f] { out.push(json!({"sig": format!("{}:entry-{}-differs", op, f), "i": i, "expected": exp[f], "got": got[f]})); }
+    }
+    // user tags: same multiset (the order of the returned list is not part of the property)
+    let norm = |v: &Value| { let mut t = tags_from_json(v).unwrap_or_default(); t.sort(); t };
+    if norm(&exp["t"]) != norm(&got["t"]) { out.push(json!({"sig": format!("{}:entry-tags-differ", op), "i": i, "expected": exp["t"], "got": got["t"]})); }
+    if judge_load {
+        if let Some(e) = got["load"].get("err") {
+            let class = if SYMMETRIC.contains(&alg) { "symmetric-key-load" } else { "key-load" };
+            out.push(json!({"sig": format!("{}:{}:ok->err:{}", op, class, e.as_str().unwrap_or("?")), "i": i, "alg": alg}));
+        } else if exp["load"] != got["load"] {
+            out.push(json!({"sig": format!("{}:loaded-key-differs", op), "i": i, "alg": alg, "expected": exp["load"], "got": got["load"]}));
+        }
+    }
+    // a key with an external reference: the property does not say what loading it yields
+}
+
+pub fn exec(case: &Value, tag: &str) -> Value {
+    let raw_case = case["kind"].as_str() == Some("c11:raw");
+    let txn = case["txn"].as_bool().unwrap_or(false);
+    let keys_json = case["keys"].as_array().cloned().unwrap_or_default();
+    let mut feat: BTreeMap<String, u64> = BTreeMap::new();
+    let mut oracle_fail: Vec<Value> = vec![];
+    let keys: Vec<LocalKey> = keys_json.iter().map(|k| make_key(k).expect("key recipe")).collect();
+    for (k, j) in keys.iter().zip(keys_json.iter()) {
+        *feat.entry(format!("alg:{}", j["alg"].as_str().unwrap_or("?"))).or_insert(0) += 1;
+        *feat.entry(format!("how:{}", j["how"].as_str().unwrap_or("?"))).or_insert(0) += 1;
+        // the observables the model was given are those of the key the executor uses
+        let o = observables(k);
+        for f in ["thumbs", "jwk", "sec", "pub"] { if o[f] != j[f] { oracle_fail.push(json!({"sig": format!("key-table:{}-not-reproducible", f), "alg": j["alg"]})); } }
+        let want = if j["alg"] == "bls12381g1g2" { 2 } else { 1 };
+        if o["thumbs"].as_array().map_or(0, |a| a.len()) != want { oracle_fail.push(json!({"sig": "thumbprints:wrong-count", "alg": j["alg"]})); }
+    }
+    let (backend, path) = provision(case["file"].as_bool().unwrap_or(false), "default", "", tag);
+    let store = Store::from(backend.clone());
+    let now = now_ms();
+    let mut o = Oracle { keys: BTreeMap::new(), raw_kms: BTreeSet::new(), now: now as i128, seq: 0 };
+    let ops = case["ops"].as_array().cloned().unwrap_or_default();
+    let mut outs = vec![];
+    block_on(async {
+        for (i, op) in ops.iter().enumerate() {
+            let name = op["op"].as_str().unwrap_or("");
+            *feat.entry(format!("op:{}", name)).or_insert(0) += 1;
+            let n = op["n"].as_str().unwrap_or("").to_string();
+            let tags_j = tags_from_json(&op["t"]);
+            let etags = tags_j.as_ref().map(|ts| ts.iter().map(Tag::to_entry_tag).collect::<Vec<_>>());
+            let meta = op["meta"].as_str();
+            let e = op["e"].as_i64();
+            let got: Value = match name {
+                "raw_insert" => {
+                    let mut s = backend.session(None, false).expect("session");
+                    let v = hex::decode(op["v"].as_str().unwrap_or("")).unwrap_or_default();
+                    let r = s.update(kind_of(op["k"].as_i64().unwrap_or(2)), EntryOperation::Insert, "cryptokey", &n, Some(&v), etags.as_deref(), None).await;
+                    let r = match r { Ok(()) => json!("ok"), Err(e) => crate::canon::jerr(&e) };
+                    s.close(true).await.ok();
+                    r
+                }
+                "dump" => {
+                    let mut all = vec![];
+                    let mut err = None;
+                    match backend.scan(None, None, None, None, None, None, Some(OrderBy::Id), false).await {
+                        Ok(mut scan) => loop {
+                            match scan.fetch_next().await {
+                                Ok(Some(rows)) => all.extend(rows.iter().map(Rec::from_entry)),
+                                Ok(None) => break,
+                                Err(e) => { err = Some(crate::canon::jerr(&e)); break; }
+                            }
+                        },
+                        Err(e) => err = Some(crate::canon::jerr(&e)),
+                    }
+                    match err { Some(e) => e, None => Value::Array(all.iter().map(Rec::to_json).collect()) }
+                }
+                _ => {
+                    let sess = if txn { store.transaction(None).await } else { store.session(None).await };
+                    match sess {
+                        Err(e) => jerr(&e),
+                        Ok(mut s) => {
+                            let r = match name {
+                                "insert_key" => match s.insert_key(&n, &keys[op["key"].as_u64().unwrap_or(0) as usize], meta, key_ref(&op["ref"]), etags.as_deref(), e).await {
+                                    Ok(()) => json!("ok"), Err(e) => jerr(&e) },
+                                "update_key" => match s.update_key(&n, meta, etags.as_deref(), e).await { Ok(()) => json!("ok"), Err(e) => jerr(&e) },
+                                "remove_key" => match s.remove_key(&n).await { Ok(()) => json!("ok"), Err(e) => jerr(&e) },
+                                "fetch_key" => match s.fetch_key(&n, false).await { Ok(None) => Value::Null, Ok(Some(k)) => entry_json(&k), Err(e) => jerr(&e) },
+                                "item_fetch" => match s.fetch("cryptokey", &n, false).await {
+                                    Ok(None) => Value::Null, Ok(Some(en)) => Rec::from_entry(&en).to_json(), Err(e) => jerr(&e) },
+                                "fetch_all_keys" => {
+                                    let f: Option<TagFilter> = op.get("f").filter(|f| !f.is_null()).and_then(filter_from_json);
+                                    match s.fetch_all_keys(op["alg"].as_str(), op["thumb"].as_str(), f, op["lim"].as_i64(), false).await {
+                                        Ok(rows) => {
+                                            let mut es: Vec<Value> = rows.iter().map(entry_json).collect();
+                                            es.sort_by(|a, b| a["n"].as_str().unwrap_or("").as_bytes().cmp(b["n"].as_str().unwrap_or("").as_bytes()));
+                                            json!({"rows": es})
+                                        }
+                                        Err(e) => jerr(&e),
+                                    }
+                                }
+                                _ => json!({"err": "BadOp"}),
+                            };
+                            if txn { s.commit().await.ok(); } else { drop(s); }
+                            r
+                        }
+                    }
+                }
+            };
+            if let Some(e) = got.get("err") { *feat.entry(format!("err:{}", e.as_str().unwrap_or("?"))).or_insert(0) += 1; }
+
+            // ---- the property's verdict on this call ----
+            let now_i = o.now;
+            let shadow = o.keys.get(&n).map_or(false, |k| !o.live(k));
+            let rawname = o.raw_kms.contains(&n);
+            let short = |v: &Value| -> String { if let Some(e) = v.get("err") { format!("err:{}", e.as_str().unwrap_or("?")) } else if v.is_null() { "none".into() } else if v == "ok" { "ok".into() } else { "data".into() } };
+            match name {
+                "raw_insert" => { if op["k"].as_i64() == Some(1) && got == "ok" { o.raw_kms.insert(n.clone()); } }
+                "insert_key" if !shadow && !rawname => {
+                    let present = o.keys.contains_key(&n);
+                    let exp = if present { json!({"err": "Duplicate"}) } else { json!("ok") };
+                    if exp != got { oracle_fail.push(json!({"sig": format!("insert_key:{}->{}", short(&exp), short(&got)), "i": i, "alg": keys_json[op["key"].as_u64().unwrap_or(0) as usize]["alg"]})); }
+                    if got == "ok" {
+                        o.seq += 1;
+                        o.keys.insert(n.clone(), RefKey { key: op["key"].as_u64().unwrap_or(0) as usize, meta: meta.map(|s| s.to_string()), rf: op["ref"].clone(),
+                            tags: tags_j.clone().unwrap_or_default(), expiry: e.map(|ms| now_i + ms as i128), seq: o.seq });
+                    }
+                }
+                "update_key" if !shadow && !rawname => {
+                    let exp = if o.keys.contains_key(&n) { json!("ok") } else { json!({"err": "NotFound"}) };
+                    if exp != got { oracle_fail.push(json!({"sig": format!("update_key:{}->{}", short(&exp), short(&got)), "i": i})); }
+                    if got == "ok" {
+                        let now = o.now;
+                        if let Some(k) = o.keys.get_mut(&n) { k.meta = meta.map(|s| s.to_string()); k.tags = tags_j.clone().unwrap_or_default(); k.expiry = e.map(|ms| now + ms as i128); }
+                    }
+                }
+                "remove_key" if !shadow && !rawname => {
+                    let exp = if o.keys.contains_key(&n) { json!("ok") } else { json!({"err": "NotFound"}) };
+                    if exp != got { oracle_fail.push(json!({"sig": format!("remove_key:{}->{}", short(&exp), short(&got)), "i": i})); }
+                    if got == "ok" { o.keys.remove(&n); }
+                }
+                "insert_key" | "update_key" | "remove_key" => {
+                    // expired shadow (C17's subject) or a row written behind the API: follow the implementation
+                    *feat.entry("oracle-undetermined".into()).or_insert(0) += 1;
+                    if got == "ok" {
+                        match name {
+                            "remove_key" => { o.keys.remove(&n); o.raw_kms.remove(&n); }
+                            "insert_key" => { o.seq += 1; o.keys.insert(n.clone(), RefKey { key: op["key"].as_u64().unwrap_or(0) as usize, meta: meta.map(|s| s.to_string()), rf: op["ref"].clone(),
+                                tags: tags_j.clone().unwrap_or_default(), expiry: e.map(|ms| now_i + ms as i128), seq: o.seq }); }
+                            _ => {}
+                        }
+                    }
+                }
+                "fetch_key" if !rawname => {
+                    match o.keys.get(&n).filter(|k| o.live(k)) {
+                        None => if !got.is_null() { oracle_fail.push(json!({"sig": format!("fetch_key:none->{}", short(&got)), "i": i})); },
+                        Some(k) => {
+                            if got.is_null() || got.get("err").is_some() { oracle_fail.push(json!({"sig": format!("fetch_key:data->{}", short(&got)), "i": i})); }
+                            else { judge_entry("fetch_key", i, &expected_entry(&n, k, &keys[k.key]), &got, keys_json[k.key]["alg"].as_str().unwrap_or(""), k.rf != "mse", &mut oracle_fail); }
+                        }
+                    }
+                }
+                "item_fetch" => {
+                    // keys are not visible as ordinary records (kind separation) — unless an Item row of that name was written
+                    if let Some(k) = got.get("k") { if k != &json!(2) { oracle_fail.push(json!({"sig": "item_fetch:returns-kms-row", "i": i})); } }
+                }
+                "fetch_all_keys" if !(raw_case && !o.raw_kms.is_empty()) => {
+                    let f = op.get("f").filter(|f| !f.is_null());
+                    let mut want: Vec<(&String, &RefKey)> = o.keys.iter().filter(|(_, k)| o.live(k)
+                        && op["alg"].as_str().map_or(true, |a| keys_json[k.key]["alg"] == a)
+                        && op["thumb"].as_str().map_or(true, |t| keys_json[k.key]["thumbs"].as_array().map_or(false, |a| a.iter().any(|x| x == t)))
+                        && f.map_or(true, |f| ref_holds(f, &k.tags, false))).collect();
+                    want.sort_by_key(|(_, k)| k.seq);
+                    let ctx = if f.map_or(false, filter_has_plain_name) { "plaintext-user-tag-filter" } else if f.is_some() { "encrypted-user-tag-filter" } else { "no-tag-filter" };
+                    if f.is_some() { *feat.entry(format!("filter:{}", ctx)).or_insert(0) += 1; }
+                    match got["rows"].as_array() {
+                        None => oracle_fail.push(json!({"sig": format!("fetch_all_keys:{}:data->{}", ctx, short(&got)), "i": i})),
+                        Some(rows) => {
+                            let got_names: BTreeSet<String> = rows.iter().map(|r| r["n"].as_str().unwrap_or("").to_string()).collect();
+                            let want_names: BTreeSet<String> = want.iter().map(|(n, _)| (*n).clone()).collect();
+                            let lim = op["lim"].as_i64().filter(|l| *l >= 0);
+                            let ok = match lim {
+                                None => got_names == want_names && rows.len() == want.len(),
+                                Some(l) => got_names.is_subset(&want_names) && rows.len() == want.len().min(l as usize) && got_names.len() == rows.len(),
+                            };
+                            if !want.is_empty() { *feat.entry("fetch_all:nonempty".into()).or_insert(0) += 1; }
+                            if !want.is_empty() && want.len() < o.keys.len() { *feat.entry("fetch_all:proper-subset".into()).or_insert(0) += 1; }
+                            if !ok {
+                                let dir = if got_names.is_subset(&want_names) { "missing" } else if want_names.is_subset(&got_names) { "extra" } else { "different" };
+                                oracle_fail.push(json!({"sig": format!("fetch_all_keys:{}:{}", ctx, dir), "i": i, "want": want_names, "got": got_names, "f": f}));
+                            }
+                            for r in rows {
+                                let nm = r["n"].as_str().unwrap_or("").to_string();
+                                if let Some(k) = o.keys.get(&nm) { judge_entry("fetch_all_keys", i, &expected_entry(&nm, k, &keys[k.key]), r, keys_json[k.key]["alg"].as_str().unwrap_or(""), k.rf != "mse", &mut oracle_fail); }
+                            }
+                        }
+                    }
+                }
+                "dump" => {
+                    // the stored form of every live key: kind Kms, category cryptokey, CBOR{meta?, ref?, data = secret JWK}, tags alg / thumb* / user:*
+                    if let Some(rows) = got.as_array() {
+                        for (nm, k) in o.keys.iter().filter(|(nm, k)| o.live(k) && !o.raw_kms.contains(*nm)) {
+                            let row = rows.iter().find(|r| r["k"] == 1 && r["c"] == "cryptokey" && r["n"] == nm.as_str());
+                            let jwk = keys_json[k.key]["jwk"].as_str().map(|h| hex::decode(h).unwrap_or_default());
+                            let mut want_tags: Vec<Tag> = vec![Tag { plain: false, name: "alg".into(), value: keys_json[k.key]["alg"].as_str().unwrap_or("").into() }];
+                            for t in keys_json[k.key]["thumbs"].as_array().unwrap() { want_tags.push(Tag { plain: false, name: "thumb".into(), value: t.as_str().unwrap().into() }); }
+                            for t in &k.tags { want_tags.push(Tag { plain: t.plain, name: format!("user:{}", t.name), value: t.value.clone() }); }
+                            let want_v = jvalue(&cbor_params(k.meta.as_deref(), &k.rf, jwk.as_deref()));
+                            let want_t: Vec<Value> = sorted_tags(&want_tags).iter().map(Tag::to_json).collect();
+                            match row {
+                                None => oracle_fail.push(json!({"sig": "dump:key-row-missing", "i": i, "n": nm})),
+                                Some(r) => {
+                                    if r["v"] != want_v { oracle_fail.push(json!({"sig": "dump:stored-value-not-cbor-keyparams", "i": i, "n": nm, "expected": want_v, "got": r["v"]})); }
+                                    if r["t"] != json!(want_t) { oracle_fail.push(json!({"sig": "dump:stored-tags-differ", "i": i, "n": nm, "expected": want_t, "got": r["t"]})); }
+                                }
+                            }
+                        }
+                    } else { oracle_fail.push(json!({"sig": format!("dump:data->{}", short(&got)), "i": i})); }
+                }
+                _ => { *feat.entry("oracle-undetermined".into()).or_insert(0) += 1; }
+            }
+            outs.push(got);
+        }
+        drop(store);
+        backend.close().await.ok();
+    });
+    cleanup(&path);
+    let diag: Vec<String> = DIAG.with(|d| d.borrow_mut().drain(..).collect());
+    json!({"out": outs, "oracle": oracle_fail, "feat": feat, "now": now, "diag": diag})
 }
